@@ -19,11 +19,11 @@ import vlib, runner
 PID = "C08"
 NB, NC = 29, 42          # 30 built-in classes + 12 decoy classes of the harness whose names extend / shorten / re-case built-in names
 MEMBERS = [6, 1, 1, 1, 2, 2, 1, 1, 1, 1, 1, 1, 5, 4, 2, 6, 1, 1, 1, 1, 1, 8, 2, 1, 2, 2, 1, 4, 3, 1] + [1] * 12
-HOWS = ["inst", "impl", "tinst", "timpl", "meth", "tmeth", "implm", "timplm"]
+HOWS = ["inst", "impl", "tinst", "timpl", "meth", "tmeth", "implm", "timplm", "simpl", "sinst"]
 
 
 def matrix_exec(rng, types, passes=2, frac=1.0):
-    L = ["reset"] + ["decl %d" % t for t in types]
+    L = ["reset"] + ["decl %d" % t for t in sorted(set(types) | {0})]          # type 0 = Type: what type objects themselves answer from
     cells = [(t, c) for t in types for c in range(NC)]
     for _ in range(passes):                     # first pass cold, later passes warm
         rng.shuffle(cells)
@@ -36,7 +36,7 @@ def matrix_exec(rng, types, passes=2, frac=1.0):
 
 
 def runtime_exec(rng, big=False):
-    L = ["reset"]
+    L = ["reset", "decl 0"]
     ts = []
     for k in range(rng.choice([1, 2, 3])):
         t = 100 + k
@@ -72,7 +72,7 @@ def runtime_exec(rng, big=False):
 
 def thread_exec(rng, n):
     ts = rng.sample(range(NB), 6)
-    L = ["reset", "rt 100 %s" % " ".join(str(rng.randrange(NC)) for _ in range(12))]
+    L = ["reset", "decl 0", "rt 100 %s" % " ".join(str(rng.randrange(NC)) for _ in range(12))]
     ts.append(100)
     L += ["decl %d" % t for t in ts]
     L.append("threads %d 2 %s" % (n, " ".join(map(str, ts))))
